@@ -40,10 +40,11 @@ Definition uref := (nat * string)%type.
 Inductive res (A : Type) := Ok (a : A) | OutOfFuel | Crash.
 Arguments Ok {A} a. Arguments OutOfFuel {A}. Arguments Crash {A}.
 
-Record fixes := { fx_import : bool;   (* F6: the import branch of updateUnitsMap passes the exponent on *)
-                  fx_std : bool }.    (* updateUnitMultiplier accounts for a bare standard unit's own multiplier *)
-Definition unfixed := {| fx_import := false; fx_std := false |}.
-Definition all_fixed := {| fx_import := true; fx_std := true |}.
+Record fixes := { fx_import : bool;   (* F6 (64d2ee4): the import branch of updateUnitsMap passes the exponent on *)
+                  fx_std : bool;      (* (40ad4ac) updateUnitMultiplier accounts for a bare standard unit's own multiplier *)
+                  fx_pop : bool }.    (* (94d567f) performTestWithHistory pops its epoch after descending into imported units *)
+Definition unfixed := {| fx_import := false; fx_std := false; fx_pop := false |}.
+Definition all_fixed := {| fx_import := true; fx_std := true; fx_pop := true |}.
 (** The state of /repo this model is compared with in the correspondence run. *)
 Definition current_fixes := all_fixed.
 
@@ -167,9 +168,12 @@ Fixpoint is_base_h (f : nat) (w : world) (h : hist) (mi : nat) (name : string) :
 Definition is_base (f : nat) (w : world) (mi : nat) (name : string) : res bool := is_base_h f w [] mi name.
 
 (* units.cpp: Units::UnitsImpl::performTestWithHistory; defined = true: TestType::DEFINED (Units::isDefined),
-   false: TestType::RESOLVED (Units::isResolved).  The history is shared by the whole traversal and never popped:
-   Ok (Some h') = returns true leaving history h'; Ok None = returns false. *)
-Fixpoint perform_test (defined : bool) (f : nat) (w : world) (h : hist) (mi : nat) (name : string) : res (option hist) :=
+   false: TestType::RESOLVED (Units::isResolved).  The history is shared by the whole traversal (passed by reference):
+   Ok (Some h') = returns true leaving history h'; Ok None = returns false (the history no longer matters: every caller
+   returns false at once).  Before 94d567f the epoch pushed for an imported units was never popped (fx_pop = false);
+   since then it is popped when the recursion returns (isBaseUnitWithHistory still does not pop, but it only follows
+   one chain of imports, so nothing is ever visited after a return). *)
+Fixpoint perform_test (fx : fixes) (defined : bool) (f : nat) (w : world) (h : hist) (mi : nat) (name : string) : res (option hist) :=
   match f with
   | O => OutOfFuel
   | S f' =>
@@ -181,13 +185,16 @@ Fixpoint perform_test (defined : bool) (f : nat) (w : world) (h : hist) (mi : na
         | Some _ =>
             let e := new_epoch h mi mj in
             if import_cycle w h e then Ok None
-            else perform_test defined f' w (e :: h) mj r
+            else match perform_test fx defined f' w (e :: h) mj r with
+                 | Ok (Some h') => Ok (Some (if fx_pop fx then tl h' else h'))     (* history.pop_back() *)
+                 | x => x
+                 end
         end
     | Some (Defs l) =>
         fold_opt (fun c h =>
           if is_std_name (uc_ref c) then Ok (Some h)
           else match lookup w mi (uc_ref c) with
-               | Some _ => perform_test defined f' w h mi (uc_ref c)
+               | Some _ => perform_test fx defined f' w h mi (uc_ref c)
                | None => Ok (if defined then None else Some h)
                end) l h
     end
@@ -199,10 +206,10 @@ Definition test_result (r : res (option hist)) : res bool :=
   | OutOfFuel => OutOfFuel
   | Crash => Crash
   end.
-Definition is_defined (f : nat) (w : world) (mi : nat) (name : string) : res bool :=
-  test_result (perform_test true f w [] mi name).
-Definition is_resolved (f : nat) (w : world) (mi : nat) (name : string) : res bool :=
-  test_result (perform_test false f w [] mi name).
+Definition is_defined (fx : fixes) (f : nat) (w : world) (mi : nat) (name : string) : res bool :=
+  test_result (perform_test fx true f w [] mi name).
+Definition is_resolved (fx : fixes) (f : nat) (w : world) (mi : nat) (name : string) : res bool :=
+  test_result (perform_test fx false f w [] mi name).
 
 (* ------------------------------------------------------------------ units.cpp: base-unit exponent map *)
 
@@ -278,9 +285,9 @@ Definition maps_equal (m1 m2 : umap) : bool :=
 Definition compatible (fx : fixes) (f : nat) (w : world) (a b : option uref) : res bool :=
   match a, b with
   | Some a, Some b =>
-      match is_defined f w (fst a) (snd a) with
+      match is_defined fx f w (fst a) (snd a) with
       | Ok true =>
-          match is_defined f w (fst b) (snd b) with
+          match is_defined fx f w (fst b) (snd b) with
           | Ok true =>
               match define_units_map fx f w a with
               | Ok ma => match define_units_map fx f w b with
@@ -309,7 +316,7 @@ Fixpoint mult_go (fx : fixes) (f : nat) (w : world) (mi : nat) (name : string) :
     match lookup w mi name with
     | None => Crash
     | Some (Import mj r) =>
-        match is_resolved f w mi name with
+        match is_resolved fx f w mi name with
         | Ok true =>
             match lookup w mj r with
             | None => Crash
